@@ -111,8 +111,15 @@ class _Tee:
         return self._real.write(s)
 
     def writelines(self, lines):
-        for l in lines:
-            self.write(l)
+        # the program's own writelines must run (with the lines it is given, in one call): the monitor only looks at
+        # the lines as they are pulled.  (Turning this into a loop of write() calls hid a defect in the writelines of
+        # the spooled file.)
+        def pulled():
+            for l in lines:
+                self.parts.append(l)
+                yield l
+
+        return self._real.writelines(pulled())
 
     def __getattr__(self, name):
         if name == 'fileno':
